@@ -337,7 +337,12 @@ def check(fx, rep, tier):
             if (F.callee_def(c) or "").endswith("VMThread::consume_gas") and c["args"]:
                 at = T.term(c["args"][0], T.env_at(cps, c, T.mutated_locals(b["hir"]["value"])), T.mutated_locals(b["hir"]["value"]))
                 on_child = F.local_of(F.strip(c["recv"])) is not None
-                if on_child and any(st[0] == "call" and isinstance(st[1], str) and F.strip_generics(st[1]).endswith("min_gas_cost") for st in T.subterms(at)):
+                child_l = F.local_of(F.strip(c["recv"]))
+                # ... the cost of the instruction that FORKS (read off the machine / the forking thread), not of whatever the child
+                # is positioned on (its jump target)
+                costs = [st for st in T.subterms(at) if st[0] == "call" and isinstance(st[1], str) and F.strip_generics(st[1]).endswith("min_gas_cost")]
+                from_child = any(st2[0] == "local" and st2[1] == child_l for cst in costs for st2 in T.subterms(cst))
+                if on_child and costs and not from_child:
                     fork_charged = True
     rep.oblige(
         charged_before or fork_charged,
